@@ -234,8 +234,10 @@ def check(prop, tier, seed):
     else:
         evaluations, distinct = max(n_inst, 1), max(n_named, 2)
         rule = 'one evaluation = one obligation instance (named obligation x path); distinct = named obligations'
+    kf_inst = sum(len(failed.get(n, [])) for n in known_matched if n in failed)
     cov = dict(
-        obligations=n_inst, discharged=sum(1 for o in obligations if o['status'] == 'unsat'),
+        obligations=n_inst - kf_inst, discharged=sum(1 for o in obligations if o['status'] == 'unsat'),
+        known_finding_obligation_instances=kf_inst,
         named_obligations=n_named, named_discharged=discharged_named,
         checker_cmd='python3-vt -m pyvc check %s --tier %s' % (prop, tier),
         trusted_base=trusted,
